@@ -66,10 +66,13 @@ def _case(draw, tier):
             init.append(how)
         case["init"] = init
     nvals = 3 if draw(st.integers(0, 3)) else 4  # infinite offers in a quarter of the runs
+    # value tokens 0 < 1 < 2 stand for small integers, or for floats one ulp apart
+    case["floats"] = draw(st.integers(0, 3)) == 0
     max_ops = 12 if tier == "thorough" else 8
     ops = []
     for _ in range(draw(st.integers(1, max_ops))):
-        what = draw(st.sampled_from(["offer", "offer", "offer", "read", "combine", "unwritten"]))
+        what = draw(st.sampled_from(["offer", "offer", "offer", "offer", "read", "combine",
+                                     "unwritten", "clone"]))
         if what == "offer":
             cands = draw(
                 st.lists(
@@ -94,6 +97,9 @@ def _case(draw, tier):
                 "w": draw(st.lists(st.integers(0, 2), min_size=16, max_size=16)),
                 "order": draw(st.integers(0, 9)),
             })
+        elif what == "clone":
+            ops.append({"op": "clone", "src": draw(st.integers(0, 2)),
+                        "via": draw(st.sampled_from(["Entry", "table.entry"]))})
         else:
             ops.append({"op": "unwritten", "order": draw(st.integers(0, 3))})
     case["ops"] = ops
@@ -107,11 +113,14 @@ def strategy(pid, tier):
 # --------------------------------------------------------------------------------------
 # executor
 # --------------------------------------------------------------------------------------
-def _val(v, merge):
+FLOATS = [0.3, 0.1 + 0.2, 0.6000000000000001]  # 0.3 < 0.30000000000000004 < 0.6000000000000001
+
+
+def _val(v, merge, floats=False):
     """The token "inf" is the worst possible value under the merge policy."""
     if v == "inf":
         return _mods["inf"] if merge == "MIN" else -_mods["inf"]
-    return v
+    return FLOATS[v] if floats else v
 
 
 def _better(merge, a, b):
@@ -191,6 +200,11 @@ def execute(case, focus=None):
     merge = dp.MergePolicy[case["merge"]]
     ret = dp.RetentionPolicy[case["ret"]]
     table = None
+    floats = bool(case.get("floats"))
+
+    def tok(v):
+        return v if v == "inf" else (FLOATS[v] if floats else v)
+
     if case["kind"] == "table":
         dims = tuple(
             dp.ListDimension(int(d[1:])) if d[0] == "L" else dp.DictDimension()
@@ -225,6 +239,7 @@ def execute(case, focus=None):
                 offers.append([])
             else:
                 kind_, value, tags = how
+                value = tok(value)
                 if kind_ == "prefilled":
                     entries.append(dp.Entry(value, list(tags), merge, ret))
                 else:
@@ -237,7 +252,7 @@ def execute(case, focus=None):
 
     def check_all(where):
         obs = []
-        for i in range(ntargets):
+        for i in range(len(getters)):
             obs.append(_check_target(run, case, f"target{i}", getters[i](), offers[i], where))
         for i, handle in enumerate(held):
             seen = _check_target(run, case, f"target{i} through the handle obtained before the "
@@ -252,21 +267,21 @@ def execute(case, focus=None):
         kind = op["op"]
         where = f"after op {idx} ({kind})"
         if kind == "offer":
-            t = op["t"] % ntargets
-            cands = [dp.Candidate(_val(v, case["merge"]), tag) for v, tag in op["cands"]]
-            if op["via"] == "setitem" and table is not None:
+            t = op["t"] % len(getters)
+            cands = [dp.Candidate(_val(v, case["merge"], floats), tag) for v, tag in op["cands"]]
+            if op["via"] == "setitem" and table is not None and t < len(keys):
                 key = keys[t]
                 node = table
                 for k in key[:-1]:
                     node = node[k]
                 for cand in cands:
                     node[key[-1]] = cand
-            elif op["via"] == "held" and held:
+            elif op["via"] == "held" and t < len(held):
                 held[t].update(*cands)
                 run.probe("write_through_held_handle")
             else:
                 getters[t]().update(*cands)
-            offers[t].extend((v, tag) for v, tag in op["cands"])
+            offers[t].extend((tok(v), tag) for v, tag in op["cands"])
             if len(op["cands"]) > 1:
                 run.nontrivial = True
             if any(tag is None for _, tag in op["cands"]):
@@ -296,8 +311,29 @@ def execute(case, focus=None):
                       lambda: f"{where}: never-written cell {key} reads {got}")
             run.probe("unwritten_read")
             run.event(idx, kind, repr(got))
+        elif kind == "clone":
+            # a new entry seeded with the current value and the LIVE tag set of an existing one
+            # (what `table.entry(cell.value(), cell.infos())` does): from now on the two have
+            # separate histories
+            src = op["src"] % len(getters)
+            entry = getters[src]()
+            value, infos = entry.value(), entry.infos()
+            if case["ret"] == "ANY" and len(infos) > 1:
+                continue
+            if op["via"] == "Entry" or table is None:
+                clone = dp.Entry(value, infos, merge, ret)
+            else:
+                clone = table.entry(value, infos)
+            best, tags = _opt(case["merge"], offers[src])
+            getters.append(lambda e=clone: e)
+            offers.append([(best, t) for t in sorted(infos)] or [(best, None)])
+            run.probe("cloned_entry")
+            run.nontrivial = True
+            ORACLE.begin(0)
+            obs = check_all(where)
+            run.event(idx, kind, src, obs)
         elif kind == "combine":
-            a, b = op["a"] % ntargets, op["b"] % ntargets
+            a, b = op["a"] % len(getters), op["b"] % len(getters)
             w = op["w"]
             tagidx = {None: 0, "a": 1, "b": 2, "c": 3}
 
@@ -368,5 +404,5 @@ def describe(pid):
             "seeded sampling, not exhaustive enumeration",
         ],
         "probes_expected": ["order_permuted", "untagged_offer", "unwritten_read", "combine_pairs>1",
-                            "prefilled_entry", "write_through_held_handle"],
+                            "prefilled_entry", "write_through_held_handle", "cloned_entry"],
     }
